@@ -26,9 +26,13 @@ GROUPS = [
     ("inputref", r"^input::InputRef::(parse|check)$", ["C20"]),
     # additional property memberships (the file is decided by the first match above)
     ("+c03", r"^primitive::(End|Any)\[Parser\]|^combinator::ThenIgnore\[Parser\]|^combinator::Repeated\[(Parser|IterParser)\]", ["C03"]),
-    ("+c07", r"^combinator::(ToSlice|ToSpan|MapWith|TryMap|TryMapWith|Validate|FoldlWith|FoldrWith|Filter)\[|^primitive::(Select|SelectRef)\[|^pratt::(Infix|Prefix|Postfix|Pratt)", ["C07"]),
+    ("+c07", r"^combinator::(ToSlice|ToSpan|MapWith|TryMap|TryMapWith|Validate|FoldlWith|FoldrWith|Filter)\[|^primitive::(Select|SelectRef)\[|^pratt::|\[pratt::Operator\]", ["C07"]),
     ("+c01", r"^combinator::OrNot\[IterParser\]", ["C01"]),
-    ("+c04", r"^combinator::(Repeated|SeparatedBy|IntoIter|IterConfigure|TryIterConfigure|Collect|CollectExactly)\[Parser\]::go|^combinator::(NestedIn|Memoized)\[|^recursive::Recursive\[|^recovery::|^regex::Regex\[|^private::", ["C04"]),
+    # C04 (mode classes of every child call), C05 (emit effects, restore positions) and C06 (`alt` effects: what error is recorded,
+    # with which span/found, ranked where) are statements about every automaton
+    ("+c04", r".", ["C04"]),
+    ("+c05b", r".", ["C05"]),
+    ("+c06b", r".", ["C06"]),
     ("+c05", r"^recovery::|^combinator::(SeparatedBy|Repeated)\[|^combinator::Validate\[|^combinator::NestedIn\[", ["C05"]),
     ("+c20", r"^recovery::|^combinator::(Repeated|SeparatedBy|Collect|CollectExactly|Foldl|FoldlWith|Foldr|FoldrWith)\[Parser\]::go|^pratt::Pratt::pratt_go|^combinator::Not\[", ["C20"]),
     ("+c06", r"^primitive::(End|Just|OneOf|NoneOf|Any|AnyRef|Select|SelectRef|Custom)\[|^combinator::(Filter|TryMap|TryMapWith|Not)\[", ["C06"]),
